@@ -1298,7 +1298,7 @@ func oracle(r *hx.Run, op string, res result, mut string) {
 	}
 	// wall time: a decoder call on n bytes that takes more than a second (+ 1 ms per KiB) did not work in
 	// proportion to its input
-	if lim := int64(1_000_000) + int64(n)*1000/1024; res.micros > lim {
+	if lim := timeLimit(n); res.micros > lim {
 		r.Fail("time-bound", fmt.Sprintf("the call took %d us for %d input bytes; op: %s", res.micros, n, short), sig("time-bound"))
 	}
 	// iterations: element decodes counted by the counting zero-width type (serix), item callbacks counted by
@@ -1334,6 +1334,9 @@ func oracle(r *hx.Run, op string, res result, mut string) {
 		r.Fail("alloc-bound", fmt.Sprintf("allocated %d bytes for %d input bytes (bound %d); op: %s", res.alloc, n, 64<<10+k*uint64(n), short), sig(o))
 	}
 }
+
+// timeLimit: a decoder call on n bytes that takes more than a second (+ 1 ms per KiB) did not work in proportion to its input
+func timeLimit(n int) int64 { return int64(1_000_000) + int64(n)*1000/1024 }
 
 // staticMisuse: the program itself names a length-prefix type (u64) or a type denotation (d0 in
 // CheckTypePrefix) that the Deserializer primitive rejects by panicking whatever the input is.
@@ -1377,6 +1380,20 @@ func (b *batch) emit(op, mut string) {
 	res := runIsolated(op)
 	if res.answer == "timeout" {
 		b.timeouts++
+	}
+	if lim := timeLimit(inputLen(strings.Fields(op))); res.micros > lim && res.answer != "timeout" && res.answer != "crash" {
+		// wall time on a shared machine: a slow call is measured again (twice) and only the fastest run counts - a
+		// decoder that works in proportion to a length field is slow every time, a descheduled process is not
+		for i := 0; i < 2 && res.micros > lim; i++ {
+			b.r.Count("time-remeasured")
+			again := runIsolated(op)
+			if again.answer != res.answer {
+				break
+			}
+			if again.micros < res.micros {
+				res.micros = again.micros
+			}
+		}
 	}
 	b.r.Line(op, res.answer)
 	oracle(b.r, op, res, mut)
